@@ -57,19 +57,21 @@ func Identities(n int) []*m.Address {
 type Opts struct {
 	Cfg     func(i int) config.Store // per node config (1-based id); nil = empty
 	Latency uint16
+	WithTun func(i int) bool // give node i a tun stand-in (traffic handling on)
+	Extra   int              // additional, unconnected nodes appended after the n mesh nodes
 }
 
 // New builds a mesh of n nodes with the given edges.
 func New(n int, edges []Edge, o Opts) (*Mesh, error) {
 	world.InstallLogCapture()
 	ms := &Mesh{W: world.NewWorld(), Edges: edges, idOf: map[netip.Addr]int{}}
-	ids := Identities(n)
-	for i := 0; i < n; i++ {
+	ids := Identities(n + o.Extra)
+	for i := 0; i < n+o.Extra; i++ {
 		var cfg config.Store
 		if o.Cfg != nil {
 			cfg = o.Cfg(i + 1)
 		}
-		nd := ms.W.NewNode(fmt.Sprintf("n%d", i+1), world.NodeOpts{Cfg: cfg, ID: ids[i]})
+		nd := ms.W.NewNode(fmt.Sprintf("n%d", i+1), world.NodeOpts{Cfg: cfg, ID: ids[i], WithTun: o.WithTun != nil && o.WithTun(i+1)})
 		ms.Nodes = append(ms.Nodes, nd)
 		ms.idOf[nd.ID.IP] = i + 1
 	}
